@@ -30,7 +30,7 @@ theorem clamp_spec (t r pt pr : Nat) (hv : validPos (pt, pr) = true) (hc : valid
       ∧ validPos (t', r') = true ∧ posLe (pt, pr) (t', r') = true
       ∧ ((t, r) = (48, 49) → (t', r') = (48, 49)) := by
   by_cases h : tupleLt t r pt pr = true
-  · refine ⟨pt, pr, by simp [h], hv, posLe_refl _, ?_⟩
+  · refine ⟨pt, pr, by simp [h], hv, IterLemmas.posLe_refl _, ?_⟩
     intro he
     rw [tupleLt_iff] at h
     rw [validPos_iff] at hv
